@@ -14,7 +14,7 @@ Inductive subset := SSingle (c : N) | SRange (from to : option N).
 
 Definition first_char_index (cs : charset) (s : str) : res nat :=
   match s with
-  | [] => Panic                                             (* value.chars().next().unwrap() *)
+  | [] => Err                                               (* value.chars().next().ok_or_else(..)?  (a panic before 5a3df6a) *)
   | c :: _ => match find_char_index cs c with Some i => Ok i | None => Err end
   end.
 
